@@ -43,6 +43,7 @@ package partitions
 //@   props C05
 //@   trusted
 //@   requires #inv: ps.inv() && ps.count > 0
+//@   ensures #primary_has_an_owner: ps.kind == PRIMARY ==> len(result) >= 1
 //@   modifies nothing
 
 // Owner panics on a partition without owners; after bootstrap every partition has one (structural assumption,
